@@ -363,7 +363,7 @@ def check(ctx):
     need = {("child", "value"), ("child", "TimeoutExpired"), ("nonchild", "none"), ("nonchild", "TimeoutExpired"),
             ("never", "none"), ("child", "ValueError")}
     if need - kinds:
-        raise core.Machinery("vacuity: outcome classes never enumerated: %s" % sorted(need - kinds))
+        core.vacuity("outcome classes never enumerated: %s" % sorted(need - kinds))
     judge_wait(ctx, cases)
     check_wait_procs(ctx, 20000 if thorough else 2500)
     check_popen_live(ctx)
